@@ -40,11 +40,11 @@ claimed = {
              text='Proved for all passwords, names and configurations: with an encrypting message id configured the password slot of the login record (value bytes and length byte) is all zero, the remote-server password slot is zero in every configuration, oversized fields are rejected and never truncated or shifted; the plain flow puts the password into the slot (control). Proof level for the login-record half of the property.',
              note='The other half (what is sent instead decrypts under the server key with fresh randomness; no password in error texts) depends on crypto/rsa, crypto/rand and fmt and is not mechanised; it is not claimed.',
              ref='3 C09'),
- 'C04': dict(tech='contract-based deductive verification of decoder safety and stream discipline (VCs from go/ssa, z3/cvc5); bounded exhaustive execution (labelled bounded) for the value round trips, which go through encoding/binary, math/big and time',
+ 'C04': dict(cat='other', tech='contract-based deductive verification of decoder safety and stream discipline (VCs from go/ssa, z3/cvc5); bounded exhaustive execution (labelled bounded) for the value round trips, which go through encoding/binary, math/big and time',
              text='Proved for all inputs: the decoders never index or slice outside the byte string for any length the format admits, field readers report a dry stream as ErrNotEnoughBytes, field writers only append. The value-level statement (decode(encode(v)) == v for every data type, exactly or to the tick, NULL as zero length, also inside parameter packages) is decided only on a stated finite domain by executing the real codec against an independent reference; that part is bounded, not proved.',
              note='Bounded domain: see evidence coverage.bounded (all 8/16-bit integers, boundary and seeded 32/64-bit patterns, float bit patterns, money, decimals of every precision, every (third) day of years 1..9999, sampled ticks, strings over all planes). BLOB is excluded by the property.',
              ref='3 C04'),
- 'C05': dict(tech='contract-based deductive verification of decoder safety (VCs from go/ssa, z3/cvc5); bounded exhaustive comparison with an independently written reference codec (labelled bounded)',
+ 'C05': dict(cat='other', tech='contract-based deductive verification of decoder safety (VCs from go/ssa, z3/cvc5); bounded exhaustive comparison with an independently written reference codec (labelled bounded)',
              text='Proved for all inputs: decoder safety. The layout statements (little-endian integers and floats, money high word first, numeric sign plus big-endian magnitude, day / tick / minute / microsecond counts from their epochs, UTF-16LE, calendar helpers equal to the proleptic Gregorian calendar and inverse to each other) are decided on a stated finite domain by executing the real functions against a reference codec written from the property text; for the calendar helpers the domain is the whole of years 1..9999 in the thorough tier. Bounded, not proved.',
              note='The reference codec is trusted. encoding/binary, math/big and time cannot be brought under contract by the generator, hence no unbounded claim for the layouts.',
              ref='3 C05'),
@@ -98,7 +98,7 @@ for p in props:
           'evidence_file': f'/verif/evidence/{i}.json',
           'replay_cmd_template': './check --replay {path}',
           'engine': 'govc',
-          'level_claimed': {'category':'proof','text':c['text'],'design_ref':'DESIGN.md '+c['ref']},
+          'level_claimed': {'category':c.get('cat','proof'),'text':c['text'],'design_ref':'DESIGN.md '+c['ref']},
           'level_note': c['note'],
           'technique': c['tech'],
         })
